@@ -11,7 +11,7 @@ pub struct IcProgram {
     pub excluded: usize,
 }
 
-const KEYS: &[&str] = &["a", "b", "c", "length", "x"];
+const KEYS: &[&str] = &["a", "b", "c", "length", "x", "tmp", "gx"];
 
 pub struct IcOpts {
     /// F10: do not add/delete/redefine properties on an object that is a prototype of a pool
@@ -36,11 +36,16 @@ pub fn generate(tape: &[u8], o: &IcOpts) -> IcProgram {
         "({ a: 1, b: 2 })", "({ b: 2, a: 1 })", "({ a: 1, b: 2, c: 3 })", "Object.create(P0)", "Object.create(P1)", "Object.create(P2)", "new K(5)", "new D(6)", "[1, 2, 3]", "(function f(p, q) {})",
         "({ get b() { print('own getter b'); return 'gb'; }, set b(v) { print('own setter b', v); } })", "Object.create(P1, { b: { value: 'ob', writable: false, configurable: true } })", "({ __proto__: P2, c: 'own c' })", "'str'", "5",
         "Object.create(null)", "new Proxy({ b: 'pb' }, {})", "Object.freeze({ a: 1, b: 2 })",
+        // objects with a unique (unshared) shape: builtin namespaces, the global object, objects after a delete
+        "Math", "JSON", "Reflect", "globalThis", "(function () { var u = { a: 1, b: 2, c: 3 }; delete u.c; return u; })()", "(function () { var u = { a: 1 }; for (var i = 0; i < 40; i++) u['p' + i] = i; u.b = 'ub'; return u; })()",
     ];
     let n_obj = 3 + t.below(6);
     s.push_str("var O = [];\n");
+    let mut pool_builtin = vec![];
     for _ in 0..n_obj {
-        s.push_str(&format!("O.push({});\n", t.pick(&pool_defs)));
+        let d = *t.pick(&pool_defs);
+        pool_builtin.push(matches!(d, "Math" | "JSON" | "Reflect" | "globalThis"));
+        s.push_str(&format!("O.push({d});\n"));
     }
     // access sites
     let n_sites = 2 + t.below(4);
@@ -56,7 +61,7 @@ pub fn generate(tape: &[u8], o: &IcOpts) -> IcProgram {
                 s.push_str(&format!("function {name}(o, v) {{ o.{k} = v; return o.{k}; }}\n"));
             }
             3 => s.push_str(&format!("function {name}(o) {{ return o.length; }}\n")),
-            4 => s.push_str(&format!("function {name}() {{ return gv; }}\n")),
+            4 => s.push_str(&format!("function {name}() {{ return {}; }}\n", if t.bool() { "gv" } else { "typeof gx === 'undefined' ? 'no gx' : gx" })),
             5 => s.push_str(&format!("function {name}(o, v) {{ gv = v; return typeof gw + gv; }}\n")),
             6 => s.push_str(&format!("function {name}(o) {{ return typeof o.m === 'function' ? o.m() : 'no m'; }}\n")),
             7 => s.push_str(&format!("function {name}(o) {{ with (Object(o)) {{ return typeof {k} === 'undefined' ? 'undef' : {k}; }} }}\n")),
@@ -116,7 +121,7 @@ pub fn generate(tape: &[u8], o: &IcOpts) -> IcProgram {
                 }
             };
             let gk = if target == "globalThis" { *t.pick(&["gv", "gw", "gx"]) } else { k };
-            let mut m = match t.below(12) {
+            let mut m = match t.below(15) {
                 0 => format!("T.{gk} = 'set{step}';"),
                 1 => format!("delete T.{gk};"),
                 2 => format!("Object.defineProperty(T, '{gk}', {{ get() {{ print('getter {gk}'); return 'acc{step}'; }}, set(v) {{ print('setter {gk}', show(v)); }}, configurable: true }});"),
@@ -127,6 +132,8 @@ pub fn generate(tape: &[u8], o: &IcOpts) -> IcProgram {
                 7 => "Object.preventExtensions(T);".to_string(),
                 8 => format!("Object.setPrototypeOf(T, {});", ["P0", "P1", "P2", "null", "K.prototype", "Array.prototype", "{ b: 'fresh proto b', a: 'fresh a' }"][t.below(7)]),
                 9 => "Object.seal(T);".to_string(),
+                12 | 13 => format!("T.{gk} = 'tmp{step}'; delete T.{gk}; T.other{step} = {step};"),
+                14 => format!("delete T.{gk}; T.other{step} = {step};"),
                 10 if !o.excl_f24_shape_change_in_accessor => format!("Object.defineProperty(T, '{gk}', {{ get() {{ delete T.{gk}; T.{gk} = 'self-replaced'; return 'once'; }}, configurable: true }});"),
                 10 => {
                     excluded += 1;
@@ -140,6 +147,9 @@ pub fn generate(tape: &[u8], o: &IcOpts) -> IcProgram {
                 // that restructures a live prototype after warm-up is skipped
                 excluded += 1;
                 continue;
+            }
+            if target == format!("O[{oi}]") && pool_builtin[oi] && (m.contains("freeze") || m.contains("seal") || m.contains("preventExtensions") || m.contains("setPrototypeOf")) {
+                m = format!("T.{gk} = 'b{step}';");
             }
             if target == "globalThis" && (m.contains("freeze") || m.contains("seal") || m.contains("preventExtensions") || m.contains("setPrototypeOf")) {
                 m = format!("T.{gk} = 'g{step}';");
